@@ -23,6 +23,22 @@ pub fn cheap_from(e: crate::errors::Error) -> io::Error {
 pub static mut LAST_SEEK_TARGET: u64 = 0;
 pub static mut SEEKS: u32 = 0;
 
+/// zero-sized error used by the stub below
+#[derive(Debug)]
+pub struct CheapErr;
+impl core::fmt::Display for CheapErr {
+    fn fmt(&self, _f: &mut core::fmt::Formatter<'_>) -> core::fmt::Result {
+        Ok(())
+    }
+}
+impl std::error::Error for CheapErr {}
+/// stub for `<Box<dyn Error + Send + Sync> as From<&str>>::from` (what `io::Error::new(kind, "text")`
+/// uses to box its message): a zero-sized error instead of a heap `String` — error text is outside
+/// every property, and the drop glue of the String-backed box is what explodes
+pub fn cheap_box_err(_s: &str) -> Box<dyn std::error::Error + Send + Sync> {
+    Box::new(CheapErr)
+}
+
 /// stub for `std::io::Error::new`: same kind, payload forgotten (no boxed `dyn Error`, whose drop
 /// glue the model checker cannot resolve)
 pub fn err_new<E>(kind: io::ErrorKind, e: E) -> io::Error
